@@ -1,7 +1,10 @@
 """SymFloat: IEEE-754 binary64 values as z3 floating-point terms (round-to-nearest-even for + - * /), used only where
-a property is about float rounding (C05 sample axis).  int(x) / astype(int) truncate toward zero (fp.to_sbv RTZ)."""
+a property is about float rounding (C05 sample axis).  int(x) / astype(int) truncate toward zero (fp.to_sbv RTZ).
+The terms live in the float world of symx.fpworld (leaves: 64-bit bit-vector twins of the integer inputs); results that
+re-enter integer code become defined constants of the integer world."""
 import z3
 from .core import SymInt, SymBool, mkbool, Unsupported, eng, is_sym
+from . import fpworld
 
 F64 = z3.Float64()
 RNE = z3.RNE()
@@ -12,7 +15,10 @@ def to_fp(x):
     if isinstance(x, SymFloat):
         return x.t
     if isinstance(x, SymInt):
-        return z3.fpRealToFP(RNE, z3.ToReal(x.t), F64)
+        try:
+            return z3.fpSignedToFP(RNE, fpworld.to_bv(x.t), F64)
+        except fpworld.NotTranslatable as e:
+            raise Unsupported("integer term in float arithmetic: %s" % e)
     if isinstance(x, bool):
         raise Unsupported("bool in float arithmetic")
     if isinstance(x, int):
@@ -80,7 +86,10 @@ class SymFloat:
         b = to_fp(o)
         if b is None:
             return NotImplemented
-        return mkbool(f(self.t, b))
+        r = z3.simplify(f(self.t, b))
+        if z3.is_true(r) or z3.is_false(r):
+            return z3.is_true(r)
+        return mkbool(fpworld.define_bool(r))
 
     def __lt__(self, o):
         return self._cmp(o, z3.fpLT)
@@ -106,12 +115,42 @@ class SymFloat:
 
     def trunc_int(self):
         """int(x): truncation toward zero (NaN / out of int64 range: unspecified value, as in C)."""
-        bv = z3.fpToSBV(z3.RTZ(), self.t, z3.BitVecSort(64))
-        return SymInt(z3.BV2Int(bv, True))
+        return self._to_int(z3.RTZ())
 
     def ceil_int(self):
-        bv = z3.fpToSBV(z3.RTP(), self.t, z3.BitVecSort(64))
-        return SymInt(z3.BV2Int(bv, True))
+        return self._to_int(z3.RTP())
+
+    def _to_int(self, mode):
+        bv = z3.simplify(z3.fpToSBV(mode, self.t, z3.BitVecSort(64)))
+        if z3.is_bv_value(bv):
+            return bv.as_signed_long()
+        return SymInt(fpworld.define_int(bv))
+
+    def rint(self):
+        """numpy.rint / numpy.round(x) with no decimals: round half to even, still a float."""
+        return SymFloat(z3.fpRoundToIntegral(RNE, self.t))
+
+    def round(self, decimals=0, out=None):
+        if decimals != 0:
+            raise Unsupported("round(decimals != 0) of a symbolic float")
+        return self.rint()
+
+    def __round__(self, nd=None):
+        if nd not in (None, 0):
+            raise Unsupported("round(x, n) of a symbolic float")
+        return SymFloat(z3.fpRoundToIntegral(RNE, self.t))._to_int(z3.RTZ()) if nd is None else self.rint()
+
+    def __trunc__(self):
+        return self.trunc_int()
+
+    def __floor__(self):
+        return self._to_int(z3.RTN())
+
+    def __ceil__(self):
+        return self._to_int(z3.RTP())
+
+    def item(self):
+        return self
 
     def astype(self, t):
         name = getattr(t, '__name__', str(t))
@@ -129,7 +168,7 @@ class SymFloat:
         raise Unsupported("concrete value of a symbolic float")
 
     def __bool__(self):
-        return bool(mkbool(z3.Not(z3.fpIsZero(self.t))))
+        return bool(mkbool(fpworld.define_bool(z3.Not(z3.fpIsZero(self.t)))))
 
     def __repr__(self):
         return "SymFloat(%s)" % str(self.t)[:60]
@@ -138,3 +177,15 @@ class SymFloat:
         return '<float>'
 
     __str__ = __repr__
+
+
+def fp_ite(cond, a, b):
+    """cond: SymBool / bool of the integer world; a, b: floats."""
+    if isinstance(cond, bool):
+        return a if cond else b
+    from .core import tobool
+    try:
+        c = fpworld.to_bv(tobool(cond))
+    except fpworld.NotTranslatable as e:
+        raise Unsupported("condition of a float selection: %s" % e)
+    return SymFloat(z3.If(c, to_fp(a), to_fp(b)))
